@@ -3,7 +3,6 @@ C15 / C11 (mipmap-generating encoder), part 3: the trapping mirror of `write_sur
 `Enc.write` (C11's model) for every encoder state satisfying C11's invariant.
 -/
 import DdsModel.Proofs.TrapMipGen
-import DdsModel.Proofs.Progress
 import DdsModel.Theorems.C11
 namespace Dds.TrapMip
 open Dds Dds.Trap Dds.TrapEnc
@@ -15,12 +14,17 @@ def Linked (e : Enc) : Prop :=
   | .tex t => e.layout.isVolume = false ∧ e.layout.mips = t.first.mips
   | .vol _ => e.layout.isVolume = true
 
+theorem pow25_succ_le' (l : Nat) : (2 / 5 : Rat) ^ (l + 1) ≤ (2 / 5 : Rat) ^ l := by
+  rw [Rat.pow_succ]
+  have : (0 : Rat) < (2 / 5 : Rat) ^ l := Rat.pow_pos (by grind)
+  grind
+
 theorem levelRangeT_ok (n level : Nat) (hl : level ≤ 255) : ∃ r, levelRangeT n level = some r := by
   unfold levelRangeT
   by_cases h : n = 0
   · rw [if_pos h]; exact ⟨_, rfl⟩
   · rw [if_neg h, ckI32_of_range (by omega), bind_some']
-    have := Dds.pow25_succ_le level
+    have := pow25_succ_le' level
     have hle : (1 : Rat) - (2 / 5 : Rat) ^ level ≤ 1 - (2 / 5 : Rat) ^ (level + 1) := by grind
     dsimp only
     rw [dbgP_of hle, bind_some']
